@@ -16,6 +16,21 @@ use crate::engine::{CaseMeta, Fail, R};
 use crate::fail;
 use crate::proc::err_path;
 
+/// Waits for the threads; `None` if they do not all finish within `secs` (they are leaked then).
+fn join_all<T>(hs: Vec<std::thread::JoinHandle<T>>, secs: u64) -> Option<Vec<std::thread::Result<T>>> {
+    let start = Instant::now();
+    while !hs.iter().all(|h| h.is_finished()) {
+        if start.elapsed().as_secs() >= secs {
+            std::mem::forget(hs);
+            return None;
+        }
+        std::thread::sleep(std::time::Duration::from_millis(5));
+    }
+    Some(hs.into_iter().map(|h| h.join()).collect())
+}
+
+pub const HANG_SIG: &str = "stress/hang";
+
 #[derive(Clone, Debug, Serialize, Deserialize)]
 pub struct StressCase {
     pub n: u64,
@@ -176,12 +191,20 @@ pub fn run_register(case: &StressCase) -> R<CaseMeta> {
         }));
     }
     let mut writes: Vec<Vec<(u64, u64)>> = Vec::new();
-    for h in whandles {
-        writes.push(h.join().map_err(|_| Fail::new("stress/panic", "a writer thread panicked"))?);
+    let Some(wres) = join_all(whandles, 90) else {
+        std::mem::forget(scratch);
+        fail!(HANG_SIG, "writer threads of a free-running stress case did not finish within 90 s");
+    };
+    for r in wres {
+        writes.push(r.map_err(|_| Fail::new("stress/panic", "a writer thread panicked"))?);
     }
     let mut reads: Vec<ReadRec> = Vec::new();
-    for h in rhandles {
-        reads.extend(h.join().map_err(|_| Fail::new("stress/panic", "a reader thread panicked"))?);
+    let Some(rres) = join_all(rhandles, 90) else {
+        std::mem::forget(scratch);
+        fail!(HANG_SIG, "reader threads of a free-running stress case did not finish within 90 s");
+    };
+    for r in rres {
+        reads.extend(r.map_err(|_| Fail::new("stress/panic", "a reader thread panicked"))?);
     }
     if let Some(f) = failure.lock().unwrap().take() {
         return Err(f);
@@ -296,8 +319,12 @@ pub fn run_shared(case: &StressCase, judge_dangling: bool, judge_listing: bool) 
             }
         }));
     }
-    for h in hs {
-        h.join().map_err(|_| Fail::new("stress/panic", "a writer thread panicked"))?;
+    let Some(res) = join_all(hs, 90) else {
+        std::mem::forget(scratch);
+        fail!(HANG_SIG, "threads of a free-running stress case did not finish within 90 s");
+    };
+    for r in res {
+        r.map_err(|_| Fail::new("stress/panic", "a writer thread panicked"))?;
     }
     let errs = errs.lock().unwrap().clone();
     if let Some(e) = errs.first() {
@@ -329,5 +356,81 @@ pub fn run_shared(case: &StressCase, judge_dangling: bool, judge_listing: bool) 
     }
     m.nontrivial.push(hash_json(case));
     m.class("stress_shared");
+    Ok(m)
+}
+
+
+/// C15: mixed workload (writers on a shared small space incl. explicit checkpoints and range removals,
+/// readers of the same keys); the only oracle is that every thread returns.
+pub fn run_mixed(case: &StressCase) -> R<CaseMeta> {
+    let scratch = Scratch::new("stress3");
+    let dir = scratch.db();
+    let cfg = crate::seq::Cfg { kt: "U64".into(), n: case.n, asyn: case.asyn, scan: false, verify: false };
+    let cas = Cas::<u64>::open(&dir, cfg.config(case.asyn)).map_err(|e| Fail::new("open-err", format!("{e:?}")))?;
+    let nw = case.writers.clamp(2, 6) as usize;
+    let nr = case.readers.clamp(1, 8) as usize;
+    let barrier = Arc::new(Barrier::new(nw + nr));
+    let mut hs = Vec::new();
+    for w in 0..nw {
+        let cas = cas.clone();
+        let barrier = barrier.clone();
+        let ops = case.writes as u64;
+        let seed = case.seed;
+        hs.push(std::thread::spawn(move || {
+            let mut x = seed ^ (w as u64 + 3).wrapping_mul(0xD6E8_FEB8_6659_FD93);
+            barrier.wait();
+            for _ in 0..ops {
+                x ^= x << 13;
+                x ^= x >> 7;
+                x ^= x << 17;
+                let key = x % 3;
+                let c = pool_content(((x >> 8) % 3) as usize);
+                let _ = match (x >> 16) % 10 {
+                    0..=4 => (|| {
+                        let mut tx = cas.put(key)?;
+                        let _ = tx.write(&c);
+                        tx.finish()
+                    })(),
+                    5..=6 => cas.remove(&key).map(|_| ()),
+                    7 => cas.remove_range(0..=key).map(|_| ()),
+                    _ => cas.checkpoint(),
+                };
+            }
+        }));
+    }
+    for r in 0..nr {
+        let cas = cas.clone();
+        let barrier = barrier.clone();
+        let reads = case.reads as u64;
+        let seed = case.seed;
+        hs.push(std::thread::spawn(move || {
+            let mut x = seed ^ (r as u64 + 11).wrapping_mul(0x9E37_79B9_7F4A_7C15);
+            barrier.wait();
+            for _ in 0..reads {
+                x ^= x << 13;
+                x ^= x >> 7;
+                x ^= x << 17;
+                let key = x % 3;
+                let _ = match (x >> 20) % 3 {
+                    0 => cas.get(&key).map(|_| ()),
+                    1 => cas.get_range(&key, 0, 9).map(|_| ()),
+                    _ => cas.get_size(&key).map(|_| ()),
+                };
+            }
+        }));
+    }
+    let Some(res) = join_all(hs, 60) else {
+        std::mem::forget(scratch);
+        fail!("deadlock/stress-hang", "a mixed free-running workload ({nw} writers incl. checkpoints and range removals, {nr} readers) did not finish within 60 s: some calls never return");
+    };
+    for r in res {
+        if r.is_err() {
+            let (m, l) = crate::engine::take_panic();
+            fail!("concurrent/panic", "a thread of the mixed workload panicked: {m} at {l}");
+        }
+    }
+    let mut m = CaseMeta { evals: (case.writes as u64) * nw as u64 + (case.reads as u64) * nr as u64, ..Default::default() };
+    m.nontrivial.push(hash_json(case));
+    m.class("stress_mixed");
     Ok(m)
 }
